@@ -371,6 +371,17 @@ func checkCrewHistory(h CrewHistory) (v ev.Verdict) {
 			v.Failf("round %d: %v", i, err)
 			return
 		}
+		if len(r.Captain) > 0 {
+			// (coverage, not judged: did the captain execute the
+			// operations, or is it still holding an earlier message?)
+			if cm := c.Machines[sio.CaptainMachine]; cm != nil && cm.State != nil {
+				if _, held := cm.State.Bs["?op"]; held || cm.State.NodeName != "start" {
+					v.Class("captain-holds-an-earlier-message")
+				} else {
+					v.Class("captain-executed-operations")
+				}
+			}
+		}
 		shadow.fold(res.Changed)
 		lv, sv := viewText(liveView(c)), viewText(shadow.view())
 		if lv != sv {
